@@ -68,6 +68,9 @@ func runReplay(replayPath string) (bool, string) {
 	os.WriteFile(ovPath, ovData, 0o644)
 	cmd := exec.Command("bash", "-c", fmt.Sprintf("ulimit -v 8000000; exec go test -overlay %s -vet=off -timeout 60s -run '^TestGovcReplay$' -count=1 ./%s", ovPath, pkgDir))
 	cmd.Dir = repo
+	if abs, err := filepath.Abs(replayPath); err == nil {
+		replayPath = abs
+	}
 	cmd.Env = append(os.Environ(), "GOFLAGS=-mod=mod", "GOPROXY=off", "GOVC_WITNESS="+replayPath)
 	out, _ := cmd.CombinedOutput()
 	s := string(out)
